@@ -229,6 +229,10 @@ func (fr *faultRun) alter(d *sim.Delivery) ([]byte, bool) {
 			if new(big.Int).SetBytes(nv).Cmp(honest) == 0 {
 				nv[len(nv)-1] ^= 1
 			}
+		case "point-other": // (name_x, name_y) := another valid point
+			pt := crypto.ScalarBaseMult(cv.EC, big.NewInt(int64(424242+f.Salt)))
+			setField(m, fieldRef{strings.TrimSuffix(f.Field.Name, "_x") + "_y", -1}, pt.Y().Bytes())
+			nv = pt.X().Bytes()
 		case "neg": // the negated scalar (q - v) or point (the coordinate whose sign flips under negation)
 			mod := cv.Q
 			if strings.HasSuffix(f.Field.Name, "_x") || strings.HasSuffix(f.Field.Name, "_y") {
@@ -581,7 +585,7 @@ func runFault(c faultCase, mode string) ev.Outcome {
 	if strings.HasPrefix(c.F.Kind, "redeal:") {
 		return judgeRedeal(x, fr, c, out0(c))
 	}
-	covered := coveredFieldKind(c.F.MsgType, c.F.Field.Name, c.F.Kind) && (c.F.Kind == "+1" || c.F.Kind == "neg" || c.F.Kind == "rand" || c.F.Kind == "other" || c.F.Kind == "remove" || strings.HasPrefix(c.F.Kind, "commit:") || strings.HasPrefix(c.F.Kind, "bits-"))
+	covered := coveredFieldKind(c.F.MsgType, c.F.Field.Name, c.F.Kind) && (c.F.Kind == "+1" || c.F.Kind == "point-other" || c.F.Kind == "neg" || c.F.Kind == "rand" || c.F.Kind == "other" || c.F.Kind == "remove" || strings.HasPrefix(c.F.Kind, "commit:") || strings.HasPrefix(c.F.Kind, "bits-"))
 	out := ev.Outcome{Label: fmt.Sprintf("%s %s.%s kind=%s dev=%d", c.Run.Proto, shortType(c.F.MsgType), c.F.Field.Name, c.F.Kind, c.F.Deviator)}
 	if c.F.All {
 		out.Label = fmt.Sprintf("%s %s.%s kind=%s from every peer of party %d", c.Run.Proto, shortType(c.F.MsgType), c.F.Field.Name, c.F.Kind, c.F.Recip)
@@ -657,6 +661,14 @@ func enumCells(run protoRun, kinds []string, listKinds []string, salt int, maxPe
 			}
 			for _, k := range kinds {
 				cells = append(cells, faultCase{Run: run, F: faultSpec{Deviator: e.From, MsgType: e.Type, Field: ref, Kind: k, Recip: recip, Salt: salt}})
+			}
+			if len(kinds) > 0 && kinds[0] == "+1" && ref.Idx < 0 && strings.HasSuffix(ref.Name, "_x") {
+				// the point (name_x, name_y) replaced by another VALID point of the curve
+				for _, r2 := range refs {
+					if r2.Idx < 0 && r2.Name == strings.TrimSuffix(ref.Name, "_x")+"_y" {
+						cells = append(cells, faultCase{Run: run, F: faultSpec{Deviator: e.From, MsgType: e.Type, Field: ref, Kind: "point-other", Recip: recip, Salt: salt}})
+					}
+				}
 			}
 			if len(kinds) > 0 && kinds[0] == "+1" && negField(run, ref.Name) {
 				cells = append(cells, faultCase{Run: run, F: faultSpec{Deviator: e.From, MsgType: e.Type, Field: ref, Kind: "neg", Recip: recip, Salt: salt}})
